@@ -62,15 +62,15 @@ Definition maybe_args (d : fdesc) : list sty := match fd_typefn d with TFNone =>
 Definition maybe_out (d : fdesc) : sty := match fd_typefn d with TFNone => fd_out d | _ => null_t end.
 
 (* wrap the arguments that are Maybe; None = nil *Type dereferenced *)
-Fixpoint wrap_maybe (strict : bool) (ats decl : list sty) (args : list pexpr) : option (list pexpr) :=
+Fixpoint wrap_maybe (al : bool) (strict : bool) (ats decl : list sty) (args : list pexpr) : option (list pexpr) :=
   match ats, decl, args with
   | at_ :: ats', dt :: decl', a :: args' =>
-      match wrap_maybe strict ats' decl' args' with
+      match wrap_maybe al strict ats' decl' args' with
       | None => None
       | Some rest =>
           if trel_eqb (is_rel at_ dt) Maybe then
             let target := if strict then type_sum dt null_t else dt in
-            match type_inter target (ptype a) with
+            match type_inter al target (ptype a) with
             | None => None
             | Some t => Some (PAssert t target a :: rest)
             end
@@ -80,14 +80,14 @@ Fixpoint wrap_maybe (strict : bool) (ats decl : list sty) (args : list pexpr) : 
   end.
 
 (* state of the second loop: current `arguments`, the descriptor found so far *)
-Definition maybe_step (arg_types nn_types : list sty) (st : tcres (list pexpr * option fdesc)) (d : fdesc)
+Definition maybe_step (al : bool) (arg_types nn_types : list sty) (st : tcres (list pexpr * option fdesc)) (d : fdesc)
   : tcres (list pexpr * option fdesc) :=
   tbind st (fun '(args, found) =>
     let ats := if fd_strict d then nn_types else arg_types in
     let decl := maybe_args d in
     if negb (Nat.eqb (length ats) (length decl)) then TcOk (args, found)
     else if existsb (fun p => trel_eqb (is_rel (fst p) (snd p)) Isnt) (combine ats decl) then TcOk (args, found)
-    else match wrap_maybe (fd_strict d) ats decl args with
+    else match wrap_maybe al (fd_strict d) ats decl args with
          | None => TcPanic TP_NILTYPE
          | Some args' => TcOk (args', Some d)
          end).
@@ -99,9 +99,9 @@ Definition desc_supported (d : fdesc) : bool :=
   fd_flat d && negb (tfkind_eqb (fd_typefn d) TFOther).
 
 Definition nullable_wrap (d : fdesc) (args : list pexpr) (t : sty) : sty :=
-  if fd_strict d && existsb (fun a => admits_null (ptype a)) args then type_sum t null_t else t.
+  if fd_strict d && existsb (fun a => allows_null (ptype a)) args then type_sum t null_t else t.
 
-Definition tc_call (table : list fdesc) (n : string) (args : list pexpr) : tcres pexpr :=
+Definition tc_call (al : bool) (table : list fdesc) (n : string) (args : list pexpr) : tcres pexpr :=
   let descs := descs_named table n in
   let arg_types := map ptype args in
   let nn_types := map non_nullable arg_types in
@@ -113,7 +113,7 @@ Definition tc_call (table : list fdesc) (n : string) (args : list pexpr) : tcres
     match exact with
     | Some (d, t) => TcOk (PCall (nullable_wrap d args t) d args)
     | None =>
-        match fold_left (maybe_step arg_types nn_types) descs (TcOk (args, None)) with
+        match fold_left (maybe_step al arg_types nn_types) descs (TcOk (args, None)) with
         | TcOk (args', Some d) => TcOk (PCall (nullable_wrap d args' (maybe_out d)) d args')
         | TcOk (_, None) => TcPanic TP_UNKNOWN_FN
         | TcPanic w => TcPanic w
@@ -124,11 +124,11 @@ Definition tc_call (table : list fdesc) (n : string) (args : list pexpr) : tcres
 (* ---- expressions ---- *)
 
 (* TypecheckExpression(expected, e) given e's result *)
-Definition expect (expected : sty) (r : tcres pexpr) : tcres pexpr :=
+Definition expect (al : bool) (expected : sty) (r : tcres pexpr) : tcres pexpr :=
   tbind r (fun pe =>
     match is_rel (ptype pe) expected with
     | Isnt => TcPanic TP_EXPECTED
-    | Maybe => match type_inter expected (ptype pe) with
+    | Maybe => match type_inter al expected (ptype pe) with
                | None => TcPanic TP_NILTYPE
                | Some t => TcOk (PAssert t expected pe)
                end
@@ -136,7 +136,7 @@ Definition expect (expected : sty) (r : tcres pexpr) : tcres pexpr :=
     end).
 
 Definition and_or_type (l r : pexpr) : sty :=
-  if admits_null (ptype l) || admits_null (ptype r) then bool_null else STSet [K_BOOL].
+  if allows_null (ptype l) || allows_null (ptype r) then bool_null else STSet [K_BOOL].
 
 Section TcList.
   Variable tc1 : lexpr -> tcres pexpr.
@@ -147,7 +147,7 @@ Section TcList.
     end.
 End TcList.
 
-Fixpoint tc (table : list fdesc) (env : list sty) (e : lexpr) {struct e} : tcres pexpr :=
+Fixpoint tc (al : bool) (table : list fdesc) (env : list sty) (e : lexpr) {struct e} : tcres pexpr :=
   match e with
   | LConst v => if value_scalar v then TcOk (PConst (type_of_scalar v) v) else TcUnsupported
   | LVar i => match nth_error env i with
@@ -155,25 +155,25 @@ Fixpoint tc (table : list fdesc) (env : list sty) (e : lexpr) {struct e} : tcres
               | None => TcPanic TP_VAR
               end
   | LAnd a b =>
-      tbind (expect bool_null (tc table env a)) (fun l =>
-      tbind (expect bool_null (tc table env b)) (fun r =>
+      tbind (expect al bool_null (tc al table env a)) (fun l =>
+      tbind (expect al bool_null (tc al table env b)) (fun r =>
       TcOk (PAnd (and_or_type l r) [l; r])))
   | LOr a b =>
-      tbind (expect bool_null (tc table env a)) (fun l =>
-      tbind (expect bool_null (tc table env b)) (fun r =>
+      tbind (expect al bool_null (tc al table env a)) (fun l =>
+      tbind (expect al bool_null (tc al table env b)) (fun r =>
       TcOk (POr (and_or_type l r) [l; r])))
-  | LCall n args => tbind (tc_list (tc table env) args) (fun ps => tc_call table n ps)
+  | LCall n args => tbind (tc_list (tc al table env) args) (fun ps => tc_call al table n ps)
   | LCoalesce args =>
       match args with
       | [] => TcPanic TP_COALESCE
-      | _ => tbind (tc_list (tc table env) args) (fun ps =>
+      | _ => tbind (tc_list (tc al table env) args) (fun ps =>
                match ps with
                | [] => TcPanic TP_COALESCE
                | p :: rest => TcOk (PCoalesce (fold_left (fun t q => type_sum t (ptype q)) rest (ptype p)) ps)
                end)
       end
   | LCast a target =>
-      tbind (tc table env a) (fun p =>
+      tbind (tc al table env a) (fun p =>
         if negb (k_scalar target) then TcUnsupported
         else match ptype p with
              | STSet (k1 :: k2 :: ks) =>
@@ -186,7 +186,7 @@ Fixpoint tc (table : list fdesc) (env : list sty) (e : lexpr) {struct e} : tcres
 
 (* ---- local well-typedness of a physical expression (a decidable sufficient condition for soundness) ---- *)
 
-(* every kind the type admits is in [t] *)
+(* every kind the type allows is in [t] *)
 Definition sty_sub (a t : sty) : bool := trel_eqb (is_rel a t) Is.
 Definition has_kind (k : Z) (t : sty) : bool := match t with STAny => true | STSet ks => kmem k ks end.
 Definition kinds_in (ks : list Z) (t : sty) : bool := forallb (fun k => has_kind k t) ks.
@@ -198,9 +198,9 @@ Definition assert_sub (a : sty) (ids : list Z) (t : sty) : bool :=
   | STSet ks => kinds_in (kinter ks ids) t
   end.
 
-(* the result of a call is admitted by [t] *)
+(* the result of a call is allowed by [t] *)
 Definition call_out_ok (d : fdesc) (args : list pexpr) (t : sty) : bool :=
-  (if fd_strict d && existsb (fun a => admits_null (ptype a)) args then has_kind K_NULL t else true) &&
+  (if fd_strict d && existsb (fun a => allows_null (ptype a)) args then has_kind K_NULL t else true) &&
   match body_result_kinds (body_of d) with
   | Some ks => kinds_in ks t
   | None => match args with
@@ -218,16 +218,16 @@ Fixpoint pwt (env : list sty) (e : pexpr) {struct e} : bool :=
   | PVar t l i => Nat.eqb l 0 && match nth_error env i with Some t' => sty_sub t' t | None => false end
   | PAnd t args | POr t args =>
       forallb (pwt env) args && forallb (fun a => sty_sub (ptype a) bool_null) args &&
-      has_kind K_BOOL t && (if existsb (fun a => admits_null (ptype a)) args then has_kind K_NULL t else true)
+      has_kind K_BOOL t && (if existsb (fun a => allows_null (ptype a)) args then has_kind K_NULL t else true)
   | PCoalesce t args =>
       forallb (pwt env) args && forallb (fun a => sty_sub (ptype a) t) args &&
-      (has_kind K_NULL t || existsb (fun a => negb (admits_null (ptype a))) args)
+      (has_kind K_NULL t || existsb (fun a => negb (allows_null (ptype a))) args)
   | PAssert t target a => pwt env a && assert_sub (ptype a) (expected_ids target) t
   | PCast t id a => pwt env a && has_kind K_NULL t && has_kind id t
   | PCall t d args => forallb (pwt env) args && desc_modelled d && call_out_ok d args t
   end.
 
-(* frame 0 holds values admitted by the column types *)
+(* frame 0 holds values allowed by the column types *)
 Fixpoint row_conforms (row : list value) (env : list sty) : bool :=
   match row, env with
   | [], [] => true
@@ -237,7 +237,7 @@ Fixpoint row_conforms (row : list value) (env : list sty) : bool :=
 Definition ctx_conforms (ctx : vctx) (env : list sty) : bool :=
   match ctx with frame :: _ => row_conforms frame env | [] => false end.
 
-(* one obligation per row of the generated table: the kinds the modelled body can return are admitted by the
+(* one obligation per row of the generated table: the kinds the modelled body can return are allowed by the
    declared OutputType (for the identity bodies: the declared argument type is) *)
 Definition row_output_ok (d : fdesc) : bool :=
   match body_result_kinds (body_of d) with
